@@ -22,6 +22,7 @@ Directives (a line starting with `//@ `; text up to the next directive belongs t
   //@@ loop N pre                     S4
   //@@ loop N post                    S5
   //@@ epilogue                       S6
+  //@@ closure N [ret=b] [type=bool]  S7  requires/ensures on the N-th closure (+N12 brace wrapping)
   //@ import QUAL from FILE home=UNIT [ret=r]     signature from the real source, contract text
                                                   from the home unit, body external
   //@ assume QUAL from FILE reason=TEXT [ret=r]   like import but the contract (own //@@ contract)
@@ -528,6 +529,39 @@ def gen_fn(d, strip_paths, mode="verify", contract_text=None, vacuity=False):
             edits.append(Edit(lc, "", s.text.rstrip() + "\n", "splice:S5"))
         else:
             raise ExtractError("%s: unknown loop section %s" % (s.where, what))
+    # S7: contracts on closures (n-th closure of the function): `//@@ closure N [ret=b]`.  The spliced
+    # text is `-> (b: T)` naming plus requires/ensures; N12 wraps an expression body in braces.
+    closures = None
+    for s in d.sections:
+        if s.kind != "closure":
+            continue
+        if closures is None:
+            closures = rs.find_closures(m, body_open, body_close)
+        try:
+            n = int(s.args[0])
+        except (ValueError, IndexError):
+            raise ExtractError("%s: bad closure ordinal" % s.where)
+        if n < 1 or n > len(closures):
+            raise ExtractError("lost anchor: %s has %d closures, contract names closure %d (%s)" % (qual, len(closures), n, s.where))
+        cs, pe, bs, be, is_block = closures[n - 1]
+        rt = "bool"
+        rn = "b"
+        for a in s.args[1:]:
+            if a.startswith("ret="):
+                rn = a[4:]
+            if a.startswith("type="):
+                rt = a[5:]
+        edits.append(Edit(pe + 1, "", " -> (" + rn + ": " + rt + ") " + " ".join(s.text.split()) + " ", "splice:S7"))
+        if not is_block:
+            edits.append(Edit(bs, "", "{ ", "norm:N12"))
+            edits.append(Edit(be, "", " }", "norm:N12"))
+    declared_closures = d.opt("closures")
+    if declared_closures is not None:
+        if closures is None:
+            closures = rs.find_closures(m, body_open, body_close)
+        if int(declared_closures) != len(closures):
+            raise ExtractError("lost anchor: %s has %d closures, contract file says %s" % (qual, len(closures), declared_closures))
+
     # declared loop count (optional): //@ fn ... loops=N
     declared_loops = d.opt("loops")
     if declared_loops is not None and int(declared_loops) != len(loops):
@@ -561,7 +595,7 @@ def gen_fn(d, strip_paths, mode="verify", contract_text=None, vacuity=False):
             continue
         final.append(x)
     # merge multiple zero-width insertions at the same offset deterministically by kind order
-    order = {"splice:S5": 0, "splice:S6": 0, "norm:N7": 1, "splice:S1": 2, "splice:S3": 2, "norm:N9": 2, "splice:S2": 3, "norm:N4": 3, "splice:S4": 4}
+    order = {"splice:S5": 0, "splice:S6": 0, "norm:N7": 1, "splice:S1": 2, "splice:S3": 2, "norm:N9": 2, "splice:S2": 3, "norm:N4": 3, "splice:S4": 4, "splice:S7": 2, "norm:N12": 3}
     final.sort(key=lambda x: (x.off, 0 if x.old == "" else 1, order.get(x.kind, 5)))
     out, placed = apply_edits(text, final)
     if erase(out, placed) != text:
